@@ -352,13 +352,14 @@ class T4Adv(object):
 
     def __init__(self, cc, file, fid=b"\xE1\x04", kind="A", ats=b"\x05\x78\x80\x70\x02", sensb=None, attrib=b"\x00",
                  read_mode="ok", sel_app="v2", chunk=253, frame_mode="ok", frame_from=0, sel_res=0x20,
-                 sdd=b"\x08\x01\x02\x03"):
+                 sdd=b"\x08\x01\x02\x03", read_from=2, cc_over=0):
         self.cc, self.file, self.fid = bytes(cc), bytes(file), bytes(fid)
         self.kind, self.ats, self.attrib = kind, ats, attrib
         self.sensb = sensb if sensb is not None else bytes([0x50, 1, 2, 3, 4, 0, 0, 0, 0, 0x00, 0x81, 0x70])
         self.read_mode, self.sel_app, self.chunk = read_mode, sel_app, chunk
         self.frame_mode, self.frame_from = frame_mode, frame_from
         self.sel_res, self.sdd = sel_res, bytes(sdd)
+        self.read_from, self.cc_over = read_from, cc_over
         self.sel = None
         self.bn = 1
         self.rx = b""
@@ -399,8 +400,8 @@ class T4Adv(object):
         if ins == 0xB0:
             f = self.cc if self.sel == b"\xE1\x03" else self.file
             le = (body[0] or 256) if len(body) == 1 else 0
-            if self.sel != b"\xE1\x03":
-                if self.read_mode == "empty" and off >= 2:
+            if self.sel != b"\xE1\x03" and off >= self.read_from:
+                if self.read_mode == "empty":
                     return b"\x90\x00"
                 if self.read_mode == "over":
                     return bytes(f[off:off + le + 7]) + b"\x90\x00"
@@ -408,6 +409,10 @@ class T4Adv(object):
                     return bytes(f[off:off + 1]) + b"\x90\x00"
                 if self.read_mode == "sw":
                     return b"\x6A\x86"
+                if self.read_mode == "nosw":
+                    return bytes(f[off:off + 1])
+            if self.sel == b"\xE1\x03" and self.cc_over and off >= 2:
+                return bytes(f[off:off + le]) + bytes(self.cc_over) + b"\x90\x00"
             return bytes(f[off:off + le]) + b"\x90\x00"
         return b"\x6D\x00"
 
